@@ -76,7 +76,7 @@ PROPS = {
     ),
     "C06": dict(
         facts=True,
-        families=[dict(name="prestate", args=["-specs", "4,5"])],
+        families=[dict(name="prestate", args=["-specs", "4,5"]), dict(name="corrupt", args=["-specs", "4"])],
         level_text="Theorems C06_frame (a successful checkout `preserved` every pre-existing entry: unchanged, newly "
                    "created, a matching link replaced by a copy of the very object, or a directory whose entries are "
                    "preserved), C06_file_frame, C06_obstructed_fails, over the model of checkout.go for every cache, "
@@ -182,7 +182,7 @@ PROPS = {
         assumptions=["H collision-free on the strings involved", "users do not write through links into the cache"],
     ),
     "C07": dict(
-        families=[dict(name="effects", args=["-specs", "2,8,9,10"]), dict(name="pipe", args=["-specs", "2,8,9"]), dict(name="corrupt", args=["-specs", "8"])],
+        families=[dict(name="effects", args=["-specs", "2,8,9,10,13"]), dict(name="pipe", args=["-specs", "2,8,9,13"]), dict(name="corrupt", args=["-specs", "8"])],
         level_text="Theorems C07_readonly, C07_no_stage_write, C07_no_cache_write, C07_failed_step_unchanged, "
                    "C07_run_only_commands_write, C07_run_without_effects, C07_inputs_untouched, C07_skip_outputs_untouched "
                    "over the whole-program model. proof, partial: absence of other system calls is an audit of runs. Tied "
